@@ -37,7 +37,8 @@ REQUIRED_REACH = ['CompositionConversionMCNPToT4.py:compositionConversionMCNPToT
 
 FAMILIES = ['atom-massrho', 'mass-massrho', 'atom-atomrho', 'natural',
             'suffixes', 'keywords', 'many-entries', 'exponents', 'heavy-z',
-            'two-densities', 'repeated-nuclide', 'mixed-signs']
+            'two-densities', 'repeated-nuclide', 'same-value-spellings',
+            'mixed-signs']
 _PER = {'quick': 14, 'thorough': 800}
 
 
@@ -134,6 +135,16 @@ def build(case):
                                           '7.8e0', '19']))
         if fam == 'two-densities':
             dens.append('-' + rng.choice(['3.3', '0.5', '11.35']))
+        if fam == 'same-value-spellings':
+            # one density value in spellings the converter does not merge:
+            # every one of them needs its composition
+            num = rng.randint(2, 9)
+            forms = [f'-{num}', f'-{num}.0', f'-{num}e0', f'-0.{num}e1',
+                     f'-{num}0e-1']
+            if not negative and rng.random() < 0.5:
+                forms = [f'0.{num}', f'{num}e-1', f'{num}.0e-1', f'0.0{num}e1']
+            rng.shuffle(forms)
+            dens = forms[:rng.randint(2, 4)]
         for rho in dens:
             cellno += 1
             sid = cellno
@@ -170,7 +181,10 @@ def run(case, ctx):
     if not run_.ok:
         crash_violation(out, run_)
         return out
-    t4, _probs = ctx.parse(run_)
+    t4, probs = ctx.parse(run_)
+    for rule, msg in probs:
+        if rule == 'geomcomp-composition':
+            out.violation('composition-missing', msg)
     comps = {}
     for comp in t4.compositions:
         comps.setdefault(comp['name'], []).append(comp)
@@ -182,27 +196,42 @@ def run(case, ctx):
         out.judged += 1
         out.counters['compositions_judged'] += 1
         label = f'material m{mid} density {rho}'
-        if len(found) != 1:
-            out.violation('composition-missing', f'{label}: {len(found)} '
-                          f'compositions written ({sorted(comps)})')
+        if not found:
+            out.violation('composition-missing', f'{label}: no composition '
+                          f'written ({sorted(comps)})')
             continue
-        comp = found[0]
+        # several spellings of one value may give several compositions: each
+        # must be right; judge them all
+        for comp in found:
+            judge_composition(out, comp, label, entries, negative, rho_val)
+            if len(comp['items']) >= 2:
+                multi = True
+    out.nontrivial = multi
+    out.sample = {'material_cards': [' '.join(m.atoms()) for m in deck.mats],
+                  'densities': [c.rho for c in deck.cells if c.rho],
+                  'written': [f"{c['kind']} {c['name']} {c['density']} "
+                              f"{'NB_ATOM ' if c['nb_atom'] else ''}"
+                              f"{c['items'][:3]}"
+                              for c in t4.compositions[:3]]}
+    return out
+
+
+def judge_composition(out, comp, label, entries, negative, rho_val):
+    if True:
         want_names = [matref.nuclide_name(z) for z, _f in entries]
         got_names = [n for n, _v in comp['items']]
         if got_names != want_names:
             out.violation('nuclides', f'{label}: expected {want_names}, '
                           f'written {got_names}')
-            continue
+            return
         out.counters['nuclides_judged'] += len(want_names)
-        if len(want_names) >= 2:
-            multi = True
         fracs = [abs(matref.fortran_float(f)) for _z, f in entries]
         got = [matref.fortran_float(v) for _n, v in comp['items']]
         if rho_val < 0:
             if comp['kind'] != 'DENSITY':
                 out.violation('density-kind', f'{label}: written as '
                               f"{comp['kind']}")
-                continue
+                return
             dens = matref.fortran_float(comp['density'])
             if dens != abs(rho_val):
                 out.violation('density-value', f'{label}: DENSITY {dens}')
@@ -218,7 +247,7 @@ def run(case, ctx):
             if comp['kind'] != 'POINT_WISE':
                 out.violation('density-kind', f'{label}: written as '
                               f"{comp['kind']}")
-                continue
+                return
             total = math.fsum(got)
             if not math.isclose(total, rho_val, rel_tol=1e-12):
                 out.violation('concentration-sum', f'{label}: sum {total!r}')
@@ -230,11 +259,3 @@ def run(case, ctx):
                                   f'{conc!r}, expected '
                                   f'{rho_val * frac / fsum!r}')
                     break
-    out.nontrivial = multi
-    out.sample = {'material_cards': [' '.join(m.atoms()) for m in deck.mats],
-                  'densities': [c.rho for c in deck.cells if c.rho],
-                  'written': [f"{c['kind']} {c['name']} {c['density']} "
-                              f"{'NB_ATOM ' if c['nb_atom'] else ''}"
-                              f"{c['items'][:3]}"
-                              for c in t4.compositions[:3]]}
-    return out
